@@ -104,6 +104,7 @@ type Engine struct {
 	nodeByName map[string]*Node
 	panicFrames []*frame
 	hashCount int
+	canon []canonEntry
 	errLog []string
 	nodeCells map[*Node]*Cell
 	asn1Blobs map[int]asn1Sig
